@@ -49,8 +49,8 @@ func init() {
 		Meta: func(tier string) fw.Meta {
 			na, nb := c11Sizes(tier)
 			return fw.Meta{N: na + nb, Level: "fault_enumeration", Chunk: 8, CaseTimeoutS: 240, MinNT: 60,
-				Rule:        "(a) one case = one seeded input set (1..4 ascending inputs, overlapping for the compacting merges, disjoint for Merge) run through Merge / MergeCompact with both reductions / MergeCompactIterator: single fault at EVERY Next position of EVERY input (variants: fail-then-continue, fail-repeatedly, fail-then-end) and at EVERY WriteNext position, plus sampled double faults; every 6th case instead merges REAL tables (reader.Scan, no validation on load) one of whose data files ends early at every record boundary and inside records; oracle: error returned, or output identical to the fault-free output. (b) one case = one SimpleDB scenario in a sub-process (flush of a memstore, one compaction cycle over 2..4 tables, or the flush that Open performs for the replayed WAL of a hand-placed kill image) with one fault: k-th data append / k-th index append of the stream writer, p-th record of an input iterator, RLIMIT_FSIZE = L bytes (kernel-level EFBIG at the first write crossing L), or ONE file of the flushed table (metadata, index, data, bloom filter) on a full device (symlink to /dev/full planted in the directory the flush will use: ENOSPC on every write to it); oracle: process stopped or error returned, never success with reads differing from the model; after a reported error the same process and a fresh process must still read the model. evaluations = fault runs; non-trivial = fault actually reached; distinct by (input hash, fault)",
-				MinObs:      map[string]int64{"merger_fault_runs": 3000, "merger_faults_reached": 2000, "merger_errors_reported": 1000, "db_fault_scenarios": 100, "db_fault_reached": 40, "db_process_stopped_or_error": 30, "rlimit_faults_reached": 5, "full_device_faults_reached": 5},
+				Rule:        "(a) one case = one seeded input set (1..4 ascending inputs, overlapping for the compacting merges, disjoint for Merge) run through Merge / MergeCompact with both reductions / MergeCompactIterator: single fault at EVERY Next position of EVERY input (variants: fail-then-continue, fail-repeatedly, fail-then-end) and at EVERY WriteNext position, plus sampled double faults; every 6th case instead merges REAL tables (reader.Scan, no validation on load) one of whose data files ends early at every record boundary and inside records; oracle: error returned, or output identical to the fault-free output. (b) one case = one SimpleDB scenario in a sub-process (flush of a memstore, one compaction cycle over 2..4 tables, or the flush that Open performs for the replayed WAL of a hand-placed kill image) with one fault: k-th data append / k-th index append of the stream writer, p-th record of an input iterator, RLIMIT_FSIZE = L bytes (kernel-level EFBIG at the first write crossing L), or ONE file of the flushed table (metadata, index, data, bloom filter) on a full device (symlink to /dev/full planted in the directory the flush will use: ENOSPC on every write to it); and compactions run by the REAL background compactor whose input fails while Close is already waiting for it (the failing iterator holds its error until the goroutine dump shows Close waiting for the compactor's done signal, its stop request sent); oracle: process stopped or error returned, never success with reads differing from the model; after a reported error the same process and a fresh process must still read the model. evaluations = fault runs; non-trivial = fault actually reached; distinct by (input hash, fault)",
+				MinObs:      map[string]int64{"merger_fault_runs": 3000, "merger_faults_reached": 2000, "merger_errors_reported": 1000, "db_fault_scenarios": 100, "db_fault_reached": 40, "db_process_stopped_or_error": 30, "rlimit_faults_reached": 5, "full_device_faults_reached": 5, "live_compactor_failures_while_close_waits": 5},
 				Assumptions: []string{"hook-level failures are clean failures; RLIMIT_FSIZE failures are real EFBIG results of write(2) through the real buffered writers", "a flush failure ends the process (log.Panicf) — the recoverability of what it leaves behind belongs to C02"},
 			}
 		},
@@ -577,6 +577,9 @@ func c11Sub(args []string) int {
 	if *mode == "recovery" {
 		return c11Recovery(*dir, *fault, strings.Split(*keysArg, ","), enc)
 	}
+	if *mode == "liveclose" {
+		return c11LiveClose(*dir, r, enc)
+	}
 	wbuf := uint64([]int{64, 256, 4096}[r.Intn(3)])
 	db, err := simpledb.NewSimpleDB(*dir, simpledb.DisableCompactions(), simpledb.MemstoreSizeBytes(1<<30),
 		simpledb.WriteBufferSizeBytes(wbuf), simpledb.CompactionFileThreshold(0), simpledb.CompactionMaxSizeBytes(1<<40))
@@ -758,6 +761,152 @@ func c11Sub(args []string) int {
 	return 0
 }
 
+// c11GoroutineIn reports whether some goroutine whose stack contains all of `frames` is in a state containing `state`.
+func c11GoroutineIn(state string, frames ...string) bool {
+	buf := make([]byte, 1<<20)
+	n := runtime.Stack(buf, true)
+next:
+	for _, g := range strings.Split(string(buf[:n]), "\n\n") {
+		head, _, _ := strings.Cut(g, "\n")
+		if !strings.Contains(head, state) {
+			continue
+		}
+		for _, f := range frames {
+			if !strings.Contains(g, f) {
+				continue next
+			}
+		}
+		return true
+	}
+	return false
+}
+
+// c11LiveClose: the REAL background compactor (1 ms ticker) meets a failing input record while Close is already waiting
+// for it. The failing iterator holds its error back until the goroutine dump shows Close waiting for the compactor's done signal, its stop request sent
+// (state based, no sleeping), then fails. Accepted outcomes: the process stops, Close returns an error, or the
+// compactor is in its log.Panicf (parked behind its done signal, like a failed flusher). Close returning nil is not.
+func c11LiveClose(dir string, r *rand.Rand, enc *json.Encoder) int {
+	db, err := simpledb.NewSimpleDB(dir, simpledb.CompactionRunInterval(time.Millisecond), simpledb.MemstoreSizeBytes(1<<30),
+		simpledb.CompactionFileThreshold(0), simpledb.CompactionMaxSizeBytes(1<<40), simpledb.WriteBufferSizeBytes(256))
+	if err == nil {
+		err = db.Open()
+	}
+	if err != nil {
+		_ = enc.Encode(c11Report{Phase: "setup", OpenErr: err.Error()})
+		return 3
+	}
+	reached := make(chan struct{})
+	var once sync.Once
+	failAt := r.Intn(3)
+	simpledb.VerifCompactionIterWrap = func(its []sstables.SSTableMergeIteratorContext) []sstables.SSTableMergeIteratorContext {
+		if len(its) < 2 {
+			return its
+		}
+		out := make([]sstables.SSTableMergeIteratorContext, len(its))
+		for i, it := range its {
+			out[i] = it
+		}
+		out[0] = sstables.NewMergeIteratorContext(its[0].Context(), &c11HoldIter{inner: its[0], failAt: failAt, reached: reached, once: &once})
+		return out
+	}
+	for t := 0; t < 3; t++ {
+		for i := 0; i < 4+r.Intn(6); i++ {
+			_ = db.Put(fmt.Sprintf("key-%03d", r.Intn(12)), fmt.Sprintf("val-%d", r.Intn(100000)))
+		}
+		if err := db.VerifForceRotate(); err != nil {
+			_ = enc.Encode(c11Report{Phase: "setup", Err: err.Error()})
+			return 3
+		}
+		select {
+		case <-reached:
+			t = 3
+		default:
+			_ = c11WaitIdle(20 * time.Second)
+		}
+	}
+	select {
+	case <-reached:
+	case <-time.After(20 * time.Second): // harness guard only
+		_ = enc.Encode(c11Report{Phase: "setup", Err: "no compaction over two tables started"})
+		return 3
+	}
+	_ = enc.Encode(c11Report{Phase: "armed"})
+	_ = os.Stdout.Sync()
+	closed := make(chan error, 1)
+	go func() { closed <- db.Close() }()
+	dl := time.Now().Add(30 * time.Second) // harness guard only; expiry is inconclusive
+	for time.Now().Before(dl) {
+		select {
+		case cerr := <-closed:
+			rep := c11Report{Phase: "result", Reached: true}
+			if cerr != nil {
+				rep.CloseErr = cerr.Error()
+				rep.Err = cerr.Error()
+			} else if c11GoroutineIn("", "simpledb.backgroundCompaction") {
+				// Close got the compactor's done signal from its deferred send — the compactor goroutine still exists, i.e. it
+				// is on its way out through log.Panicf: the process is about to stop (do not race it with a normal exit)
+				rep.Err = "Close returned nil while the compactor goroutine was still unwinding its panic"
+				for i := 0; i < 2000 && c11GoroutineIn("", "simpledb.backgroundCompaction"); i++ {
+					time.Sleep(time.Millisecond)
+				}
+			}
+			_ = enc.Encode(rep)
+			return 0
+		default:
+		}
+		if c11GoroutineIn("", "simpledb.backgroundCompaction", "log.Panicf") {
+			_ = enc.Encode(c11Report{Phase: "result", Reached: true, Err: "the compactor is in log.Panicf (parked behind its done signal)"})
+			_ = os.Stdout.Sync()
+			os.Exit(0)
+		}
+		time.Sleep(time.Millisecond)
+	}
+	_ = enc.Encode(c11Report{Phase: "setup", Err: "neither Close returned nor did the compactor fail"})
+	os.Exit(0)
+	return 0
+}
+
+// c11CloseWaitsForCompactor: Close has sent its stop request (buffered) and is blocked receiving the compactor's done
+// signal — i.e. a goroutine in "chan receive" inside (*DB).Close itself, not inside the closure that waits for the flusher.
+func c11CloseWaitsForCompactor() bool {
+	buf := make([]byte, 1<<20)
+	n := runtime.Stack(buf, true)
+	for _, g := range strings.Split(string(buf[:n]), "\n\n") {
+		head, _, _ := strings.Cut(g, "\n")
+		if strings.Contains(head, "chan receive") && strings.Contains(g, "simpledb.(*DB).Close(") && !strings.Contains(g, "simpledb.(*DB).Close.func1") {
+			return true
+		}
+	}
+	return false
+}
+
+// c11HoldIter fails at record failAt — but only once Close is seen waiting for the compactor.
+type c11HoldIter struct {
+	inner   sstables.SSTableMergeIteratorContext
+	failAt  int
+	calls   int
+	reached chan struct{}
+	once    *sync.Once
+}
+
+func (f *c11HoldIter) Next() ([]byte, []byte, error) {
+	call := f.calls
+	f.calls++
+	if call == f.failAt {
+		f.once.Do(func() { close(f.reached) })
+		dl := time.Now().Add(25 * time.Second) // harness guard only
+		for time.Now().Before(dl) && !c11CloseWaitsForCompactor() {
+			time.Sleep(200 * time.Microsecond)
+		}
+		return nil, nil, errC11
+	}
+	k, v, err := f.inner.Next()
+	if err != nil && errors.Is(err, pq.Done) {
+		return nil, nil, sstables.Done
+	}
+	return k, v, err
+}
+
 // c11Recovery opens a kill image with a fault armed: the flush that recovery performs for the replayed WAL must
 // report the failure through Open (or stop the process), never absorb it.
 func c11Recovery(dir, fault string, keys []string, enc *json.Encoder) int {
@@ -851,6 +1000,10 @@ func c11DB(c *fw.Case, j int) {
 		mode = "compaction"
 	case 2:
 		c11DBRecovery(c, j, scenario, spec)
+		return
+	}
+	if mode == "compaction" && spec == 11 {
+		c11DBLiveClose(c, scenario)
 		return
 	}
 	var fault string
@@ -983,6 +1136,48 @@ func c11DB(c *fw.Case, j int) {
 	if j%40 == 0 {
 		c.Sample(map[string]any{"scenario": desc, "error_reported": result.Err, "fault_reached": result.Reached, "tables": result.Tables, "selected": result.Selected})
 	}
+}
+
+// c11DBLiveClose: an input record of a compaction run by the real background compactor fails while Close waits for it.
+func c11DBLiveClose(c *fw.Case, scenario int) {
+	c.HashAdd(scenario, "liveclose")
+	c.Obs("db_fault_scenarios", 1)
+	seed := fw.CaseSeed("C11-liveclose", c.Seed, scenario)
+	res := fw.RunSub("", 90, nil, c.Dir, "c11sub", "-dir", c.Dir, "-mode", "liveclose", "-fault", "hold", "-seed", fmt.Sprint(seed))
+	if res.TimedOut {
+		c.Inconclusive("c11sub (liveclose) watchdog expired")
+		return
+	}
+	armed := false
+	var result *c11Report
+	for _, ln := range bytes.Split(res.Stdout, []byte("\n")) {
+		var rep c11Report
+		if json.Unmarshal(ln, &rep) != nil {
+			continue
+		}
+		rr := rep
+		switch rep.Phase {
+		case "armed":
+			armed = true
+		case "result":
+			result = &rr
+		case "setup":
+			c.Inconclusive(fmt.Sprintf("liveclose scenario could not be set up: %s %s", rep.OpenErr, rep.Err))
+			return
+		}
+	}
+	if !armed {
+		c.Inconclusive(fmt.Sprintf("liveclose sub-process ended before the fault was armed (exit %d): %s", res.Exit, cutS(res.Stderr, 300)))
+		return
+	}
+	c.Obs("db_fault_reached", 1)
+	c.Obs("live_compactor_failures_while_close_waits", 1)
+	c.Nontrivial()
+	if result == nil || result.Err != "" {
+		c.Obs("db_process_stopped_or_error", 1)
+		return
+	}
+	c.Violate("db-fault/absorbed/compaction-while-closing", "scenario=%d: an input record of the background compaction failed while Close was waiting for the compactor; Close returned nil, the process went on, nothing was reported", scenario)
 }
 
 // c11DBRecovery: kill image with data only in the WAL, then Open with a fault inside recovery's own flush.
